@@ -18,6 +18,9 @@ CONF = """---
 addresses: [10.77.0.0/24]
 api-listeners: ['/var/lib/erbium/control', '127.0.0.1:9968']
 dns-listeners: ['127.0.0.1:5300']
+dhcp-policies:
+  - match-user-class: 'alt'
+    apply-range: { start: 10.77.0.210, end: 10.77.0.240 }
 """
 DB = "/var/lib/erbium/leases.sqlite"
 
@@ -152,9 +155,65 @@ def main():
             frames, ack = dhcplib.exchange(sb.client, mac, 3, xid, options=ropts)
             if ack:
                 acked += 1
+            if i % 5 == 0:
+                # the same client (same identifier) once more, now presenting a user class that puts it into another range:
+                # one client, two leases, two rows -- and two entries in the listing
+                xid += 1
+                aopts = opts + [(77, b"alt")]
+                frames, off2 = dhcplib.exchange(sb.client, mac, 1, xid, options=aopts)
+                if off2:
+                    xid += 1
+                    frames, ack2 = dhcplib.exchange(sb.client, mac, 3, xid, options=aopts + [(50, bytes(int(x) for x in off2["yiaddr"].split("."))), (54, bytes([10, 77, 0, 1]))])
+                    if ack2 and off and ack2["yiaddr"] != off["yiaddr"]:
+                        leg.count("clients_holding_two_leases", 1)
             if i % 8 == 7 or i == len(names) - 1:
                 check_listing("names-batch")
                 leg.cls("names|%s" % ("utf8" if all(b < 0x80 for b in nm) else "high-bytes"))
+        # ---- scrapes WHILE leases are being handed out: rows only get added here, so whatever instant a scrape describes,
+        # active + expired lies between the row count read just before it and the one read just after it
+        import threading
+        stop = [False]
+        scr = {"n": 0, "bad": []}
+
+        def scraper():
+            while not stop[0]:
+                n0 = len(rows())
+                st, body, err = dhcplib.http_get(("127.0.0.1", 9968), "/metrics")
+                n1 = len(rows())
+                if st != 200:
+                    continue
+                g = gauges(body)
+                tot = (g.get("dhcp_active_leases") or 0) + (g.get("dhcp_expired_leases") or 0)
+                scr["n"] += 1
+                if not (n0 <= tot <= n1):
+                    scr["bad"].append((n0, tot, n1))
+
+        ths = [threading.Thread(target=scraper) for _ in range(4)]
+        for th in ths:
+            th.start()
+        # bursts of DISCOVERs written back to back: the server works them off one after the other, holding its lease store
+        for burst in range(3):  # 120 more clients; the pool has some 215 addresses
+            for k in range(40):
+                mac = bytes([2, 0x22, burst, 0, 0, k])
+                xid += 1
+                sb.client.send(dhcplib.frame(mac, dhcplib.dhcp_payload(1, mac, xid, options=[(55, bytes([1, 3, 6]))])))
+            sb.client.recv_frames(1.0, want=dhcplib.is_dhcp_reply)
+        for k in range(20 if thorough else 10):
+            mac = bytes([2, 0x21, 0, 0, k >> 8, k & 0xFF])
+            xid += 1
+            frames, off = dhcplib.exchange(sb.client, mac, 1, xid, options=[(55, bytes([1, 3, 6]))])
+            if off:
+                xid += 1
+                dhcplib.exchange(sb.client, mac, 3, xid, options=[(55, bytes([1, 3, 6])), (50, bytes(int(x) for x in off["yiaddr"].split("."))), (54, bytes([10, 77, 0, 1]))])
+        stop[0] = True
+        for th in ths:
+            th.join(timeout=20)
+        leg.eval()
+        leg.count("scrapes_during_allocation", scr["n"])
+        leg.cls("concurrent-scrapes|%s" % ("consistent" if not scr["bad"] else "stale"))
+        if scr["bad"]:
+            leg.violation("C20/gauges-stale-while-leases-are-handed-out", "%d of %d scrapes outside [rows before, rows after]; first: rows before %d, active+expired %d, rows after %d" % (
+                len(scr["bad"]), scr["n"], scr["bad"][0][0], scr["bad"][0][1], scr["bad"][0][2]), {"engine": "c20-e2e", "phase": "concurrent", "bad": scr["bad"][:10]})
         leg.count("leases_acked", acked)
         if acked < 10:
             leg.inconclusive("only %d DHCP exchanges completed: %s" % (acked, p.text()[-300:]))
